@@ -5857,7 +5857,22 @@ class Symbol:
 
             return BOOL_TO_STR[val]
 
-        if self.orig_type:  # STRING/INT/HEX
+        if self.orig_type:  # STRING/INT/HEX/FLOAT
+            # An enabled 'set default' takes precedence over the defaults when there is
+            # no user value (see str_value), so it is what the symbol would fall back to.
+            for candidate_val, cond, _ in self.weak_rev_values:
+                if expr_value(cond) and expr_value(self.direct_dep):
+                    if self.orig_type == STRING:
+                        val = candidate_val.str_value
+                    elif self.orig_type == FLOAT:
+                        val = _normalize_float(candidate_val.name) if is_float(candidate_val.name) else ""
+                    else:
+                        base = _TYPE_TO_BASE[self.orig_type]
+                        val = candidate_val.name if _is_base_n(candidate_val.name, base) else ""
+                    if val:
+                        return val
+                    break
+
             for default, cond in self.defaults:
                 if expr_value(cond):
                     return default.str_value
